@@ -20,6 +20,7 @@ type srcSpec struct {
 	FailAt   int
 	FailWith bool
 	FailErr  int
+	FailOnce bool // the source reports its error from one Read call only and would go on afterwards
 	NoCloser bool
 }
 
@@ -41,7 +42,7 @@ func checkMulti(c multiCase) string {
 	firstUnfinished := len(c.Srcs)
 	for i, s := range c.Srcs {
 		d := data(s.Len, byte(i+1)*0x11)
-		sr := &vk.ScriptReader{Data: d, Chunks: s.Chunks, EOFWith: s.EOFWith, FailAt: s.FailAt, FailWith: s.FailWith, Err: vk.FaultErrors[s.FailErr%len(vk.FaultErrors)]}
+		sr := &vk.ScriptReader{Data: d, Chunks: s.Chunks, EOFWith: s.EOFWith, FailAt: s.FailAt, FailWith: s.FailWith, FailOnce: s.FailOnce, Err: vk.FaultErrors[s.FailErr%len(vk.FaultErrors)]}
 		srcs = append(srcs, sr)
 		if s.NoCloser {
 			readers = append(readers, vk.ReaderOnly{R: sr})
@@ -134,6 +135,7 @@ func genSrc(rt *rapid.T, label string, allowFault bool) srcSpec {
 		s.FailAt = rapid.IntRange(0, s.Len).Draw(rt, label+".failAt")
 		s.FailWith = rapid.Bool().Draw(rt, label+".failWith")
 		s.FailErr = rapid.IntRange(0, len(vk.FaultErrors)-1).Draw(rt, label+".failErr")
+		s.FailOnce = rapid.Bool().Draw(rt, label+".failOnce")
 	}
 	return s
 }
@@ -260,7 +262,7 @@ func (c teeCase) String() string {
 func checkTee(c teeCase) string {
 	d := data(c.Src.Len, 0x33)
 	srcErr := vk.FaultErrors[c.Src.FailErr%len(vk.FaultErrors)]
-	src := &vk.ScriptReader{Data: d, Chunks: c.Src.Chunks, EOFWith: c.Src.EOFWith, FailAt: c.Src.FailAt, FailWith: c.Src.FailWith, Err: srcErr}
+	src := &vk.ScriptReader{Data: d, Chunks: c.Src.Chunks, EOFWith: c.Src.EOFWith, FailAt: c.Src.FailAt, FailWith: c.Src.FailWith, FailOnce: c.Src.FailOnce, Err: srcErr}
 	var r io.Reader = src
 	if c.Src.NoCloser {
 		r = vk.ReaderOnly{R: src}
